@@ -47,23 +47,35 @@ ASSUMPTIONS = list(__import__("props.c01", fromlist=["x"]).ASSUMPTIONS) + [
 SB_PROPS = {"C15", "C01", "C02", "C06", "C07"}
 
 
-def gen_case(rng, min_remaps=2):
+def gen_case(rng, min_remaps=2, micro=0.0):
     nd = rng.choice([1, 1, 2, 2, 3])
     dims = [rng.choice([1, 2, 3, 4, 5]) for _ in range(nd)]
     freq = rng.choice([2, 3, 4, 7])
     cap = rng.choice([1, max(1, freq - 1), freq, freq + 3, 50])
     dt = rng.choice(["f64", "f64", "f32"])
+    force_micro = rng.random() < micro
+    if force_micro:
+        dt = "f64"
     contain = rng.random() < 0.5
     span = 4 if dt == "f32" else rng.choice([4, 64, 10**6])
     lo0, hi0 = (-span, span) if contain else rng.choice([(-1, 1), (span, 2 * span), (0, F(1, 2))])
     case = {"kind": "sbr", "dims": dims, "lo": [q(F(lo0))] * nd, "hi": [q(F(hi0))] * nd, "dtype": dt, "freq": freq,
             "cap": cap, "layout": rng.choice(["", "s", "v", "o", "sv", "om", "b", "vb"]), "sol_dim": rng.choice([1, 2]),
             "off": q(rng.choice([F(0), F(-8), F(3, 2)]))}
-    style = rng.choice(["uniform", "dups", "drift", "far"])
+    style = rng.choice(["uniform", "dups", "drift", "far"] + (["micro"] if dt == "f64" else []))
+    if force_micro:
+        style = "micro"
+    micro_k = rng.choice([1, 1, 2])      # one cluster: every boundary of every remap moves by a few 2^-21 only
     pool = [[q(F(rng.randint(-8 * span, 8 * span), 8)) for _ in range(nd)] for _ in range(rng.choice([2, 3, 5]))]
     tok = [0]
 
     def meas(t):
+        if style == "micro":
+            # clustered around a few points (|b| >= 1) with offsets of a few 2^-21 (epsilon = 1e-6 is about 2 of them):
+            # successive remaps move the boundaries by less than any "close enough" relative tolerance while elites sit
+            # between the old and the new position of a boundary
+            base = [F(b) if abs(F(b)) >= 1 else F(b) + 2 for b in rng.choice(pool[:micro_k])]
+            return [q(b + F(rng.randint(-12, 12), 2**21)) for b in base]
         if style == "dups" or (style != "uniform" and rng.random() < 0.3):
             return rng.choice(pool)
         if style == "drift":
@@ -539,7 +551,7 @@ def run_rank(case):
 def run_case(case, props=("C15",)):
     if case.get("kind") == "sbrank":
         return run_rank(case)
-    return Run(case, props).run()
+    return archlib.guarded(Run(case, props), set(props))
 
 
 def nontrivial(case):
